@@ -24,11 +24,13 @@ func jsonDecodeNumber(s string, v any) error {
 
 // ------------------------------------------------------------------ builders
 
-func S(s string) fj                { return fj{kind: 's', s: s} }
-func O(kv ...kvp) fj               { return fj{kind: 'o', kv: kv} }
-func X(raw string) fj              { return fj{kind: 'x', raw: raw} }
-func M(k string, v fj) member      { return member{k, v} }
-func PQ(text string) kvp           { return kvp{"persistedQuery", `{"sha256Hash":"` + shaOf(text) + `","version":1}`} }
+func S(s string) fj           { return fj{kind: 's', s: s} }
+func O(kv ...kvp) fj          { return fj{kind: 'o', kv: kv} }
+func X(raw string) fj         { return fj{kind: 'x', raw: raw} }
+func M(k string, v fj) member { return member{k, v} }
+func PQ(text string) kvp {
+	return kvp{"persistedQuery", `{"sha256Hash":"` + shaOf(text) + `","version":1}`}
+}
 func hdr(kv ...string) http.Header {
 	h := http.Header{}
 	for i := 0; i+1 < len(kv); i += 2 {
